@@ -16,6 +16,7 @@ import (
 	"os"
 	"os/exec"
 	"path/filepath"
+	"sort"
 	"strings"
 	"time"
 
@@ -136,9 +137,13 @@ func buildBatch(dir string, schemas []*lib.SchTy, rng *lib.Rng, st *batchStatus)
 			return fmt.Errorf("schema graph: %v", errs)
 		}
 		adj := &gengo.AdjunctCfg{CfgUnionMemlayout: map[schema.TypeName]string{}}
-		for name, typ := range ts.GetTypes() {
+		types := ts.GetTypes()
+		for name := range types {
 			names = append(names, name)
-			if typ.TypeKind() == schema.TypeKind_Union && rng.Chance(40) {
+		}
+		sort.Strings(names) // map order must not leak into the generated code or the PRNG stream
+		for _, name := range names {
+			if types[name].TypeKind() == schema.TypeKind_Union && rng.Chance(40) {
 				adj.CfgUnionMemlayout[name] = "interface"
 			}
 		}
